@@ -894,6 +894,27 @@ class _Run:
                 )
             else:
                 self.res.probe("click_equals_fresh_tree")
+        rb = self.root.base
+        if self.root.kind == "Columns" and getattr(rb, "dividechars", 0) and self.root.kids and getattr(self, "reentrant_edits", 0) == edits0:
+            # a press on a divider cell of the root Columns belongs to no child: nobody sees it, the focus stays
+            try:
+                widths = list(rb.column_widths((cols,), True))
+                nrows = rb.rows((cols,), True)
+            except Exception:  # noqa: BLE001
+                widths = []
+                nrows = 0
+            if widths and len(widths) == len(self.root.kids) and all(wd > 0 for wd in widths) and y < nrows:
+                edge = 0
+                on_divider = False
+                for wd in widths[:-1]:
+                    edge += wd
+                    if edge <= x < edge + rb.dividechars:
+                        on_divider = True
+                    edge += rb.dividechars
+                if on_divider:
+                    self.res.probe("click_on_a_divider_cell")
+                    if evs or p0 != p1:
+                        self.violate("C08.2", "click-on-divider-cell-reached-a-child", f"step {i}: press at {(x, y)}: column widths {widths}, dividechars {rb.dividechars}: leaves {[e[1].lid for e in evs]} saw it, focus path {p0!r} -> {p1!r}; tree {self.describe(self.root)}")
         if p0 != p1:
             self.res.probe("click_changed_focus")
         if not evs:
